@@ -76,8 +76,8 @@ def run(ck, F):
 
     R1 = ck.rule('C17.no-address-text', 'no function reachable from the printer inserts a pointer into the stream, converts a '
                  'pointer to an integer or prints type_info text', floor=300)
-    R2 = ck.rule('C17.ordered-iteration', 'every iteration reachable from the printer ranges over an ipr::Sequence, a vector of basic '
-                 'specifiers/qualifiers, or string bytes; never over an address-keyed or hashed container', floor=5)
+    R2 = ck.rule('C17.ordered-iteration', 'no iteration reachable from the printer ranges over a hashed container, an ordered container keyed '
+                 'by a pointer, or one of the library\'s address-ordered trees: every walk is in an order the program determined', floor=5)
     R3 = ck.rule('C17.no-address-order', 'no address-ordering primitive (node comparison, tree lookup, std::less/hash/sort on '
                  'pointers) is reachable from the printer', floor=300)
     nloops = 0
@@ -118,9 +118,16 @@ def run(ck, F):
             okr = rng_t.startswith(('ipr::Sequence<', 'const ipr::Sequence<', 'std::vector<ipr::Basic_', 'const std::vector<ipr::Basic_',
                                     'const char8_t *', 'const ipr::impl::(anonymous namespace)::', 'ipr::Sequence<', 'const ipr::Basic_',
                                     'const std::forward_list<', 'std::forward_list<')) or 'Sequence<' in rng_t and 'Iterator' in rng_t
-            badr = rng_t.replace('const ', '').startswith(UNORDERED)
+            # the order of an iteration depends on addresses only for hashed containers, for ordered containers keyed by a
+            # pointer, and for the library's own address-ordered trees; arrays, vectors, lists, strings and ipr::Sequence
+            # are walked in the order the program put their elements
+            bare = rng_t.replace('const ', '')
+            import re as _re
+            keyed = _re.match(r'std::(?:multi)?(?:map|set)<\s*([^,>]*)', bare)
+            badr = bare.startswith(('std::unordered_', 'ipr::disambiguation_map_type', 'ipr::util::rb_tree::')) or \
+                (keyed is not None and keyed.group(1).rstrip().endswith('*'))
             inst = f'{contracts.short(contracts.fn_qname(fid))}@{rng_t[:60]}'
-            ck.check(R2, inst, okr and not badr, f'{fid} iterates over {rng_t}', loc=f['loc'], fn=fid)
+            ck.check(R2, inst, not badr, f'{fid} iterates over {rng_t}: the order of the elements depends on addresses / hash values', loc=f['loc'], fn=fid)
     ck.extra['iterations'] = nloops
 
     # ---------------------------------------------------------------- sequences in insertion order
